@@ -133,6 +133,13 @@ CLAIMED = {
         "fit() updates the registered targets: their values are taken from the estimator and validated against BVLS for the state at fit time; fits compared at solver tolerance.",
         "DESIGN.md section 6 C14",
     ),
+    "C15": (
+        "metamorphic testing with Hypothesis-generated unit changes: the same call on the twin system (A*s*c, bounds/s, baseline*c, targets*c) must give the same membership, ranges*s, X*s, B_pred/c, error/c",
+        "Generated systems/targets as in C03/C04/C06 (bounded, unbounded, flat), unit factors drawn inside the range that keeps both twins well-scaled (asserted) or in [1e-4,1e4] (stress, tallied only); "
+        "membership compared outside the boundary band, ranges at 1e-7, uniquely determined fits at the C04 tolerances.",
+        "Asserted only in the well-scaled regime as the property states; the twin relation needs no oracle beyond the LP used to exclude the boundary band.",
+        "DESIGN.md section 6 C15",
+    ),
 }
 
 PENDING_REASON = "check not built yet in this revision (planned, see DESIGN.md section 6); not claimed until its check runs quietly on the unchanged tree"
